@@ -87,8 +87,13 @@ def exc_in_harness(exc):
         if "/jaxley/" in fn and "/verif/" not in fn:
             return False
         if "/verif/" in fn:
+            if fr.name in SEAM_PASS_THROUGH:
+                continue  # a seam that forwards to the real function (e.g. the np.random wrappers): look at its caller
             return True
     return False
+
+
+SEAM_PASS_THROUGH = {"binomial", "choice", "patched"}
 
 
 def exc_text(exc):
